@@ -480,13 +480,13 @@ def _on_alarm(_s, _f):
 
 def timed(fn):
     """-> outcome, or ('hang',) when the parse does not finish within PARSE_SECONDS"""
-    signal.setitimer(signal.ITIMER_REAL, PARSE_SECONDS)
+    signal.setitimer(signal.ITIMER_VIRTUAL, PARSE_SECONDS)  # CPU time of this process: a busy machine cannot make a parse look hung
     try:
         return outcome(fn)
     except _Timeout:
         return ('hang',)
     finally:
-        signal.setitimer(signal.ITIMER_REAL, 0)
+        signal.setitimer(signal.ITIMER_VIRTUAL, 0)
 
 
 def _expected(ref_result, rest, full):
@@ -520,7 +520,7 @@ def _work(job):
     rules, text = schema_text(desc, starts)
     stats = {'cases': 0, 'nontrivial': 0, 'accepted': 0, 'oracle_skipped': 0}
     failures, samples = [], []
-    old = signal.signal(signal.SIGALRM, _on_alarm)
+    old = signal.signal(signal.SIGVTALRM, _on_alarm)
     try:
         model = tatsu.compile(text)
         marked = {r.name for r in model.rules if r.is_lrec}
@@ -572,7 +572,7 @@ def _work(job):
                     if m[0] != 'hang' and g[0] != 'hang' and not same_outcome(m, g):
                         fail('model-and-generated-parser-differ', f'model: {m!r}; generated parser: {g!r}')
     finally:
-        signal.signal(signal.SIGALRM, old)
+        signal.signal(signal.SIGVTALRM, old)
     by = {}
     for f in failures:
         by.setdefault(f['cls'], []).append(f)
